@@ -111,6 +111,19 @@ Proof.
   - right; right. now apply zlist_eqb_eq.
 Qed.
 
+Theorem vmdk_layout_accepts m m64 : vmdk_layout_gate m m64 = Ok tt ->
+  m = Gen.Consts.vmdk_VMDK_MAGIC \/ m = Gen.Consts.vmdk_COWD_MAGIC \/
+  (m = Gen.Consts.vmdk_SESPARSE_MAGIC /\ m64 = Gen.Consts.vmdk_SESPARSE_CONST_HEADER_MAGIC).
+Proof.
+  unfold vmdk_layout_gate. intros H.
+  destruct (vmdk_sparse_gate m) as [[]| |] eqn:E1; try discriminate. cbn [bind] in H.
+  apply vmdk_sparse_accepts in E1.
+  destruct (zlist_eqb m Gen.Consts.vmdk_VMDK_MAGIC) eqn:Ev; [left; now apply zlist_eqb_eq|].
+  destruct (zlist_eqb m Gen.Consts.vmdk_COWD_MAGIC) eqn:Ec; [right; left; now apply zlist_eqb_eq|].
+  cbn [orb] in H. apply gate_ok, negb_false_iff, Z.eqb_eq in H.
+  destruct E1 as [E|[E|E]]; subst m; [discriminate Ev|right; right; split; [reflexivity|exact H]|discriminate Ec].
+Qed.
+
 Theorem vmdk_footer_accepts hm uf fm : vmdk_footer_gate hm uf fm = Ok tt ->
   (hm = Gen.Consts.vmdk_VMDK_MAGIC \/ hm = Gen.Consts.vmdk_SESPARSE_MAGIC \/ hm = Gen.Consts.vmdk_COWD_MAGIC) /\
   (uf = true -> fm = Gen.Consts.vmdk_VMDK_MAGIC \/ fm = Gen.Consts.vmdk_COWD_MAGIC).
